@@ -911,9 +911,13 @@ theorem Inv2_step (s : BState) (c : Call) (h : Inv2 s.view) (hsafe : safeCall s 
       refine inv2_of_view_eq h1 (view_congr rfl rfl rfl rfl rfl rfl ?_ rfl rfl)
       exact map_frame_modify _ _ _ (fun _ => rfl)
     · exact inv2_pushNewFrame h
-    · exact inv2_pushNewFrame (s := s.error) h
+    · exact inv2_pushNewFrame (s := { s.error with currentEdge := none }) h
   case procEdgeEnd => exact h.pop (safe_pop_of hsafe rfl (by intro x hx; cases hx))
-  case procSelect n => exact inv2_addSelectSymbol h _ _
+  case procSelect n =>
+    simp only [step]
+    cases s.currentEdge with
+    | none => exact h
+    | some p => exact inv2_addSelectSymbol h _ _
   case ganttSelect n => exact inv2_addSelectSymbol h _ _
   case procGuard => exact inv2_setEdge h _
   case procUpdate => exact inv2_setEdge h _
